@@ -126,6 +126,9 @@ def c01(rep, env):
         only(rep, lambda r: BM.check_export(r, fb), pre("ivstate.resume"))
         only(rep, lambda r: SM.check_belt(r, fb, parts=("export",)), pre("ivstate.resume"))
         BC.check_state(rep, fb)
+        # the one-step inversion is established on the buffer-to-buffer form of the kernels; in-place
+        # driving inverts too only if it writes the same bytes and leaves the same chaining state
+        only(rep, lambda r: BM.check_inplace(r, fb), pre("alias.same"))
     per_config(rep, env, f)
 
 
@@ -287,8 +290,11 @@ def c11(rep, env):
         only(rep, lambda r: SM.check_ctr_remaining(r, fb), pre("rem.", "pos.get", "pos.set"))
         only(rep, lambda r: SM.check_ctr_core(r, fb), pre("rem."))
         only(rep, lambda r: SM.check_ctr_layout(r, fb), pre("ctr.next.advance", "ctr.from-nonce"))
-        only(rep, lambda r: SM.check_ctr_backend(r, fb), pre("ctr.ks.advance", "par.closed-form.state"))
-        only(rep, lambda r: SM.check_belt(r, fb, parts=("rem", "def", "par")), pre("rem.", "belt.ks.advance", "par.closed-form.state"))
+        # "no counter value is used for two different positions": every position can be reached through
+        # the one-block kernel, which uses 2^w - 1 of the 2^w counter values, so a parallel body that
+        # numbers its blocks differently from the one-block kernel hands some counter out twice
+        only(rep, lambda r: SM.check_ctr_backend(r, fb), pre("ctr.ks.advance", "par.closed-form.state", "par.n-fold"))
+        only(rep, lambda r: SM.check_belt(r, fb, parts=("rem", "def", "par")), pre("rem.", "belt.ks.advance", "par.closed-form.state", "par.n-fold"))
         MI.check_ofb_unbounded(rep, fb)
         CR.check_wrapper_checks(rep, fb)
         # a clone that forgets how many blocks were used would wrap silently
@@ -404,7 +410,7 @@ PROOF_NOTE = ("Static decision over the generic MIR of /repo's current tree: ker
               "normal forms or an entailment of linear facts, so one verdict covers every cipher, block size, width, key, IV and message.")
 
 REGISTRY = {
-    "C01": {"run": c01, "level": "proof", "floors": {"inv.step.out": 6, "inv.cts.roundtrip": 36, "inv.buf.out": 2, "inv.stream": 5}},
+    "C01": {"run": c01, "level": "proof", "floors": {"alias.same.out": 12, "alias.same.state": 16, "inv.step.out": 6, "inv.cts.roundtrip": 36, "inv.buf.out": 2, "inv.stream": 5}},
     "C02": {"run": c02, "level": "proof", "floors": {"def.out": 6, "def.state": 8, "par.closed-form": 2, "plumb.state-borrowed": 6, "control.def": 5}},
     "C03": {"run": c03, "level": "proof", "floors": {"def.out": 7, "def.state": 7, "par.closed-form": 2, "enc-only.kernel": 8, "buf.def": 12, "rem.ofb-unbounded": 1}},
     "C04": {"run": c04, "level": "proof", "floors": {"ctr.layout": 6, "ctr.ks.block": 6, "par.closed-form": 12, "ctr.resume": 6, "ctr.alias": 6}},
@@ -414,12 +420,12 @@ REGISTRY = {
     "C08": {"run": c08, "level": "proof", "floors": {"buf.def": 12, "buf.chunk": 14, "def.out": 3, "ctr.ks.block": 6, "belt.ks.block": 1, "alias.wrapper": 8}},
     "C09": {"run": c09, "level": "proof", "floors": {"alias.same.state": 16, "ivstate.export-public": 12, "ivstate.resume": 14, "ctr.resume": 6, "buf.state": 4}},
     "C10": {"run": c10, "level": "proof", "floors": {"pos.get": 7, "pos.set": 7, "pos.counter-type": 7, "pos.core": 12}},
-    "C11": {"run": c11, "level": "other", "floors": {"rem.exact": 7, "ctr.ks.advance": 6, "belt.ks.advance": 1, "wrapper.check-dominates": 3, "rem.ofb-unbounded": 1}},
+    "C11": {"run": c11, "level": "other", "floors": {"par.n-fold": 14, "rem.exact": 7, "ctr.ks.advance": 6, "belt.ks.advance": 1, "wrapper.check-dominates": 3, "rem.ofb-unbounded": 1}},
     "C12": {"run": c12, "level": "proof", "floors": {"alias.same.out": 70, "alias.no-old-output": 70, "control.alias": 4}},
     "C13": {"run": c13, "level": "proof", "floors": {"cts.no-panic": 72, "cts.gate.exact": 12, "cts.gate.no-side-effect": 12, "b2b": 80, "ivsize": 18, "panic.site-covered": 30}},
     "C14": {"run": c14, "level": "proof", "floors": {"cts.layout": 36, "buf.def": 12, "buf.init": 2, "ofb.one-backend": 1, "ofb.same-function": 2, "alias.wrapper": 8, "keyinit.blanket": 18}},
     "C15": {"run": c15, "level": "proof", "floors": {"dep.kind": 24, "ctr.ks.data-independent": 6}},
-    "C16": {"run": c16, "level": "proof", "floors": {"own.fields-by-value": 50, "own.clone-fieldwise": 46, "own.no-std": 18, "own.no-unsafe": 18, "own.calls-allow-listed": 18, "control.own": 5, "inv.stream": 5, "alias.no-old-output": 15}},
+    "C16": {"run": c16, "level": "proof", "floors": {"own.fields-by-value": 50, "own.clone-fieldwise": 46, "own.no-std": 18, "own.no-unsafe": 18, "own.calls-allow-listed": 18, "control.own": 6, "inv.stream": 5, "alias.no-old-output": 15}},
     "C17": {"run": c17, "level": "other", "floors": {"leak.debug-opaque": 54, "leak.alias-debug-opaque": 16, "leak.zeroize-field": 20, "control.leak": 5}},
 }
 for _k, _v in REGISTRY.items():
